@@ -254,13 +254,19 @@ Lemma proj_anchored_n h bs count g h' g' : GInv h g -> nlen bs <= count -> ancho
 Proof.
   intros I Hcount E. unfold anchored_n in E.
   destruct (N.eq_dec count 0) as [Hz|Hnz].
-  { subst count. assert (bs = []) by (apply nlen_zero; lia). subst bs. cbn in E. inversion E; subst h' g'. apply steps_refl. }
+  { subst count. assert (bs = []) by (apply nlen_zero; lia). subst bs. cbn in E. inversion E; subst h' g'.
+    assert (Ep : proj (push_anchor {| acount := 0; achunk := None |} (set_cache (gcache_ g) g)) = Anchors.apply_op Anchors.OpIdle (proj g)).
+    { unfold proj. cbn [push_anchor set_cache gslices ganchors Anchors.apply_op Anchors.slices Anchors.anchors achunk]. now rewrite map_app. }
+    rewrite Ep. apply steps_one. }
   assert (Hcpos : 0 < count) by lia.
   destruct (arena_read_n h (gcache_ g) bs count) as [[[[hp kp'] sp] ap]|] eqn:EA; [|discriminate].
   destruct (arena_read_n_spec _ _ _ _ _ _ _ _ (gi_cache h g I) (gi_heap h g I) Hcpos Hcount EA)
     as (kp & -> & Hk' & Hh' & _ & Hframe & Hbytes & Enew & Hle & Hok & Hend & Ea & _).
   destruct bs as [|b0 bs0] eqn:Ebs.
-  - rewrite Enew in E. cbn in E. inversion E; subst h' g'. apply steps_refl.
+  - rewrite Enew in E. cbn in E. inversion E; subst h' g'. subst ap.
+    assert (Ep : proj (push_anchor {| acount := 1; achunk := Some (kchunk kp) |} (set_cache (Some kp) g)) = Anchors.apply_op (Anchors.OpAnchored (kchunk kp) []) (proj g)).
+    { unfold proj, Anchors.push_anchor. cbn [push_anchor set_cache gslices ganchors Anchors.apply_op fold_left Anchors.slices Anchors.anchors achunk]. now rewrite map_app. }
+    rewrite Ep. apply steps_one.
   - rewrite <- Ebs in *. assert (Hne : bs <> []) by (rewrite Ebs; discriminate). specialize (Hok Hne). subst ap.
     pose proof (sl_len_pos hp sp Hok) as Hpos.
     destruct (sl_len sp =? 0) eqn:E0; [apply N.eqb_eq in E0; lia|].
